@@ -27,23 +27,23 @@ variable {K : Type} [Field K] (c c3 : K) (fn : Fns K)
 theorem N3_s2t_apply (hc : c * c = 2) (h2 : (2:K) ≠ 0) (a : Fin 9 → Fin 6 → K) (s : Fin 6 → K) :
     gen% (Gen.N3_s2t_apply_all c c3 fn) | a 9 6 | s 6
       = T2.tens (T4.app (T4.ofS2T c a) (T2.ofSt c s)) := by
-  t4_eq hc
+  rw [tens_app_S2T hc h2]; t4_eq hc
 theorem N3_s2t_applyL (hc : c * c = 2) (h2 : (2:K) ≠ 0) (x : Fin 9 → K) (a : Fin 9 → Fin 6 → K) :
     gen% (Gen.N3_s2t_applyL_all c c3 fn) | x 9 | a 9 6
       = T2.st c (T4.appL (T2.ofTens x) (T4.ofS2T c a)) := by
-  t4_eq hc
+  rw [st_appL_S2T hc h2]; t4_eq hc
 theorem N3_s2t_comp_tt_s2t (hc : c * c = 2) (h2 : (2:K) ≠ 0) (a : Fin 9 → Fin 9 → K) (b : Fin 9 → Fin 6 → K) :
     gen% (Gen.N3_s2t_comp_tt_s2t_all c c3 fn) | a 9 9 | b 9 6
       = rows96 (T4.stoS2T c (T4.comp (T4.ofTT a) (T4.ofS2T c b))) := by
-  t4_eq hc
+  rw [stoS2T_comp_TT_S2T hc h2]; t4_eq hc
 theorem N3_s2t_comp_s2t_st (hc : c * c = 2) (h2 : (2:K) ≠ 0) (a : Fin 9 → Fin 6 → K) (b : Fin 6 → Fin 6 → K) :
     gen% (Gen.N3_s2t_comp_s2t_st_all c c3 fn) | a 9 6 | b 6 6
       = rows96 (T4.stoS2T c (T4.comp (T4.ofS2T c a) (T4.ofST c b))) := by
-  t4_eq hc
+  rw [stoS2T_comp_S2T_ST hc h2]; t4_eq hc
 theorem N3_s2t_dyad (hc : c * c = 2) (h2 : (2:K) ≠ 0) (x : Fin 9 → K) (s : Fin 6 → K) :
     gen% (Gen.N3_s2t_dyad_all c c3 fn) | x 9 | s 6
       = rows96 (T4.stoS2T c (T2.dyad (T2.ofTens x) (T2.ofSt c s))) := by
-  t4_eq hc
+  rw [stoS2T_dyad hc h2]; t4_eq hc
 /-- `st2tot2::tpld(b)`: `∂(a·b)/∂a` for symmetric `a`, `(δ_ik b_lj + δ_il b_kj)/2` -/
 theorem N3_s2t_tpld (hc : c * c = 2) (h2 : (2:K) ≠ 0) (s : Fin 6 → K) :
     gen% (Gen.N3_s2t_tpld_all c c3 fn) | s 6
